@@ -44,7 +44,7 @@ ASSUMPTIONS = [
 KINDS = ("supervised", "semi", "unsup")
 
 
-EXPECTED_PROBES = ['unsupervised_fit_without_labels', 'precomputed_flag_switched_on_a_file_backed_model', 'refit_with_other_index_set', 'non_contiguous_data_set', 'non_float64_data_set', 'asymmetric_metric', 'call_raises_consistently', 'file_overwritten_after_a_model_read_it', 'fit_after_file_overwritten', 'integer_valued_metric', 'non_identity_index_array', 'path_overwritten', 'unsupervised_best_k_gt_1']
+EXPECTED_PROBES = ['get_distances_after_caller_modified_an_earlier_result', 'unsupervised_fit_without_labels', 'precomputed_flag_switched_on_a_file_backed_model', 'refit_with_other_index_set', 'non_contiguous_data_set', 'non_float64_data_set', 'asymmetric_metric', 'call_raises_consistently', 'file_overwritten_after_a_model_read_it', 'fit_after_file_overwritten', 'integer_valued_metric', 'non_identity_index_array', 'path_overwritten', 'unsupervised_best_k_gt_1']
 
 SLOW_ARMS = ("restart",)
 
@@ -132,6 +132,8 @@ def gen_case(rng, arm, tier, k=0):
             ops.append(["predict", rng.randrange(models), [rng.randrange(len(test)) for _ in range(rng.randint(1, 6))]])
         elif r < 0.78:
             ops.append(["getdist", rng.randrange(models), rng.random() < 0.5])
+            if rng.random() < 0.5:
+                ops.append(["getdist", ops[-1][1], rng.random() < 0.5])
         elif r < 0.82:
             # the public flag is switched: the same object must then compute on the fly (and back)
             ops.append(["flag", rng.randrange(models)])
@@ -372,6 +374,8 @@ def run_case(case):
                         G = np.asarray(G)
                         if G.shape != E.shape:
                             raise Stop(violation("get_distances-wrong", "get_distances returned shape %s for %d training samples" % (G.shape, n), normalize=normalize, **facts))
+                        if md.get("scribbled"):
+                            bump(out.probes, "get_distances_after_caller_modified_an_earlier_result")
                         if not normalize:
                             if abits(G) != abits(E):
                                 ij = np.argwhere(~((G == E) | (np.isnan(G) & np.isnan(E))))
@@ -381,6 +385,11 @@ def run_case(case):
                             En = (E - E.min()) / (E.max() - E.min())
                             if not np.allclose(G, En, rtol=1e-12, atol=0.0, equal_nan=True):
                                 raise Stop(violation("get_distances-wrong", "%s model: normalised get_distances differs from (d-min)/(max-min)" % which, normalize=True, **facts))
+                        # what was returned belongs to the caller: it may modify it in place
+                        if G.flags.writeable and G.size and (k + len(nodes)) % 3 == 0:
+                            np.fill_diagonal(G, np.inf)
+                            G[0, -1] = -7.0
+                            md["scribbled"] = True
                     log.add("getdist", normalize)
                     norm.append(("getdist", normalize))
             elif kop == "restart":
